@@ -104,6 +104,34 @@ pub fn shape(tok: &str) -> String {
     crate::mv::clip(&out, 40)
 }
 
+/// Coarse, stable class of a token for signatures.
+pub fn tok_class(tok: &str) -> String {
+    let b = tok.as_bytes();
+    let signed = !b.is_empty() && (b[0] == b'+' || b[0] == b'-');
+    let body = if signed { &tok[1..] } else { tok };
+    if let Some(l) = crate::model::parse_dec_lit(body) {
+        if l.has_exp && !l.has_frac {
+            return "dec-exp-nofrac".into();
+        }
+        if l.has_exp {
+            return "dec-frac-exp".into();
+        }
+        if l.has_frac {
+            return "dec-frac".into();
+        }
+        return "dec-int".into();
+    }
+    if signed {
+        if body.starts_with('.') {
+            return "sign-dot".into();
+        }
+        if body.chars().next().map_or(false, |c| !c.is_ascii()) {
+            return "sign-unicode".into();
+        }
+    }
+    crate::mv::clip(&shape(tok), 6)
+}
+
 /// The maximal run of non-delimiter bytes around byte `offset` of `text`.
 pub fn token_at(text: &[u8], offset: usize) -> String {
     let is_delim = |c: u8| matches!(c, b' ' | b'\t' | b'\r' | b'\n' | 0x0C | b'(' | b')' | b'[' | b']' | b'"' | b';');
@@ -151,7 +179,7 @@ pub fn shape_at_error(text: &[u8], e: &lexpr::parse::Error) -> String {
     match e.location() {
         Some(loc) => {
             let off = offset_of(text, loc.line(), loc.column());
-            shape(&token_at(text, off.saturating_sub(1)))
+            tok_class(&token_at(text, off.saturating_sub(1)))
         }
         None => "-".to_string(),
     }
